@@ -326,6 +326,101 @@ theorem search_after_cut_only_file_items (fs : Dir) (c : Cache) (b e : Nat) (res
     ∀ x ∈ (find (cutIdx (cutData fs kd) ki) c b e res).2, FromFiles (cutIdx (cutData fs kd) ki) x :=
   find_fromFiles _ c b e res
 
+/-! ### search level, after a crash (fresh searcher, `Covered`) -/
+
+/-- the side conditions of the search lemmas for a writer state satisfying `Inv` -/
+theorem files_wf_of_inv (w : Writer) (hinv : Inv w w.latestOpSec) (hlines : LinesValid w) (hlat : w.latestOpSec < 2 ^ 64)
+    (hsize : ∀ f ∈ w.files, f.data.length < 2 ^ 64) :
+    ∀ f ∈ w.files, FileOK f ∧ entsBounded f.ents ∧ ∀ it ∈ f.lines, Valid it := by
+  intro f hf
+  refine ⟨hinv.ok f hf, ?_, hlines f hf⟩
+  intro en hen
+  obtain ⟨pre, rest, hsplit⟩ := List.append_of_mem hf
+  have hen' : en ∈ allEnts w.files := by
+    rw [hsplit, allEnts_append, allEnts_cons]; simp [hen]
+  refine ⟨lt_of_le_of_lt (hinv.bound en hen') hlat, ?_⟩
+  obtain ⟨j, _, hoff, _, _⟩ := EntsOK_split [] pre f rest (hsplit ▸ hinv.ents) en hen
+  have h1 := serialise_take_length_le f.lines j
+  have h2 := hsize f hf
+  rw [(hinv.ok f hf).1] at h2
+  omega
+
+/-- **search_after_cut_complete_partial, data file**: for every accepted history of writes and restarts,
+    with `init ++ [cur]` the retained files (`cur` = the file being written), after cutting `cur`'s data at
+    **any** byte `k` (index intact), under `Covered`, a fresh searcher's `find begin end res` returns the
+    reference answer over *the items of the earlier files and the lines of `cur` wholly before the cut*,
+    followed by at most one extra item, which can only be what the torn fragment parses to (the region of
+    `metriclog-torn-line`).  Hence: (b) every matching item whose line lies wholly before the cut is
+    returned, in order, once; (a) everything returned except possibly that one item was written. -/
+theorem search_after_data_cut_partial (now maxSize maxFiles : Nat) (hnow : now / 1000 < 2 ^ 64)
+    (evs : List Ev) (hok : EvsOK (Writer.new now maxSize maxFiles) evs) (init : Dir) (cur : File)
+    (hfiles : (runEvents (Writer.new now maxSize maxFiles) evs).files = init ++ [cur])
+    (k b e : Nat) (res : Bytes)
+    (hsize : ∀ f ∈ (runEvents (Writer.new now maxSize maxFiles) evs).files, f.data.length < 2 ^ 64)
+    (hcov : Covered (runEvents (Writer.new now maxSize maxFiles) evs).files b) :
+    ∃ extra, (find (cutData (init ++ [cur]) k) {} b e res).2
+        = specFind (retained init ++ wholeLines cur.lines k) b e res ++ extra ∧
+      (∀ x ∈ extra, x ∈ (parseLine (dropCR (fragment cur.lines k))).toList) ∧
+      (fragment cur.lines k = [] → extra = []) ∧
+      (∀ x ∈ specFind (retained init ++ wholeLines cur.lines k) b e res, x ∈ retained (init ++ [cur])) := by
+  have h := runEvents_inv (Writer.new now maxSize maxFiles) evs hok (inv_new now maxSize maxFiles)
+    (new_linesValid now maxSize maxFiles) (by simpa [Writer.new] using hnow)
+  have hwf := files_wf_of_inv _ h.1 h.2.1 h.2.2 hsize
+  have hidx := indexCorrect_of_inv _ h.1.ents h.1.sorted _ hcov
+  have hs := h.1.ord.2.1
+  rw [hfiles] at hwf hidx hs
+  obtain ⟨extra, h1, h2⟩ := find_after_data_cut init cur k b e res hwf hs hidx
+  refine ⟨extra, h1, h2, ?_, ?_⟩
+  · intro hfr
+    cases hx : extra with
+    | nil => rfl
+    | cons x r =>
+      have := h2 x (by rw [hx]; simp)
+      rw [hfr] at this
+      simp [dropCR, parseLine] at this
+  · intro x hx
+    have := (specFind_sound _ _ _ _ _ hx).1
+    rw [retained_append]
+    rcases List.mem_append.1 this with hm | hm
+    · exact List.mem_append_left _ hm
+    · exact List.mem_append_right _ (by simpa [retained] using (wholeLines_prefix cur.lines k).subset hm)
+
+/-- **search_after_cut_complete_partial, index file**: … after cutting `cur`'s index at **any** byte `k`
+    (data intact), under `Covered`: if an index entry whose second is not before `begin` lies wholly
+    before the cut (in an earlier file, or among the first `k / 16` entries of `cur`), the answer is the
+    full reference answer; otherwise it is empty — never an error.  So (a) only written items are
+    returned, and (b) every matching item whose own index entry lies wholly before the cut is returned. -/
+theorem search_after_idx_cut_partial (now maxSize maxFiles : Nat) (hnow : now / 1000 < 2 ^ 64)
+    (evs : List Ev) (hok : EvsOK (Writer.new now maxSize maxFiles) evs) (init : Dir) (cur : File)
+    (hfiles : (runEvents (Writer.new now maxSize maxFiles) evs).files = init ++ [cur])
+    (k b e : Nat) (res : Bytes)
+    (hsize : ∀ f ∈ (runEvents (Writer.new now maxSize maxFiles) evs).files, f.data.length < 2 ^ 64)
+    (hcov : Covered (runEvents (Writer.new now maxSize maxFiles) evs).files b) :
+    (find (cutIdx (init ++ [cur]) k) {} b e res).2
+        = (if (allEnts init ++ cur.ents.take (k / 16)).any (fun en => decide (en.1 ≥ b / 1000))
+           then specFind (retained (init ++ [cur])) b e res else []) ∧
+    (∀ x ∈ specFind (retained (init ++ [cur])) b e res,
+        (∃ en ∈ allEnts init ++ cur.ents.take (k / 16), en.1 = x.ts / 1000) →
+        x ∈ (find (cutIdx (init ++ [cur]) k) {} b e res).2) := by
+  have h := runEvents_inv (Writer.new now maxSize maxFiles) evs hok (inv_new now maxSize maxFiles)
+    (new_linesValid now maxSize maxFiles) (by simpa [Writer.new] using hnow)
+  have hwf := files_wf_of_inv _ h.1 h.2.1 h.2.2 hsize
+  have huncut := search_of_inv _ h.1 h.2.1 h.2.2 b e res hsize hcov
+  rw [hfiles] at hwf huncut
+  have hcut := find_after_idx_cut init cur k b e res (fun f hf => ⟨(hwf f hf).1.2, (hwf f hf).2.1⟩)
+  rw [huncut] at hcut
+  refine ⟨hcut, ?_⟩
+  intro x hx ⟨en, hen, hes⟩
+  have hany : (allEnts init ++ cur.ents.take (k / 16)).any (fun en => decide (en.1 ≥ b / 1000)) = true := by
+    rw [List.any_eq_true]
+    refine ⟨en, hen, ?_⟩
+    have := (specFind_sound _ _ _ _ _ hx).2.1
+    simp only [inRange, Bool.and_eq_true, decide_eq_true_eq] at this
+    simp only [decide_eq_true_eq]
+    omega
+  rw [hcut, if_pos hany]
+  exact hx
+
 /-! ## 7. what the pinned code violates (known findings, `known/C17.jsonl`) -/
 
 def mk (res : Nat) (pass rt : Nat) : Item :=
